@@ -43,3 +43,95 @@ package zap
 //@ loop 1 invariant !validMerge ==> !$pendingRecons [C19]
 //@ loop 2 invariant chanClosed(closeCh) == old(chanClosed(closeCh)) [C18]
 //@ end
+
+// ---- C16: vector index cache: reference counting and lock discipline (sequential contracts) ----
+
+//@ guarded vectorIndexCache.cache by m
+
+//@ func (*cacheEntry).load returns (idx, vmap, dmap)
+//@ thin
+//@ tags [C16]
+//@ wf requires ce != nil && ce.tracker != nil && ce.refs < 0x7fffffffffffffff
+//@ ensures ce.refs == old(ce.refs) + 1 [C16]
+//@ ensures idx == ce.index && vmap == ce.vecDocIDMap && dmap == ce.docVecIDMap
+//@ end
+
+//@ func (*cacheEntry).decRef
+//@ thin
+//@ tags [C16]
+//@ wf requires ce != nil && ce.refs > -0x7fffffffffffffff
+//@ ensures ce.refs == old(ce.refs) - 1 [C16]
+//@ end
+
+//@ func createCacheEntry returns (ce)
+//@ thin
+//@ tags [C16]
+//@ ensures ce != nil && fresh(ce) && ce.refs == 1 && ce.index == index && ce.vecDocIDMap == vecDocIDMap
+//@ ensures loadDocVecIDMap ==> ce.docVecIDMap == docVecIDMap
+//@ ensures !loadDocVecIDMap ==> ce.docVecIDMap == nil
+//@ end
+
+//@ func (*vectorIndexCache).decRef
+//@ thin
+//@ tags [C16]
+//@ requires vc != nil && muHeld(vc.m) == 0
+//@ ensures muHeld(vc.m) == 0
+//@ end
+
+//@ func (*vectorIndexCache).incHit
+//@ thin
+//@ tags [C16]
+//@ requires vc != nil && muHeld(vc.m) == 0
+//@ ensures muHeld(vc.m) == 0
+//@ end
+
+//@ func (*vectorIndexCache).loadFromCache returns (idx, vmap, dmap, excl, err)
+//@ thin
+//@ tags [C16]
+//@ requires vc != nil && muHeld(vc.m) == 0
+//@ ensures muHeld(vc.m) == 0
+//@ end
+
+//@ func (*vectorIndexCache).createAndCacheLOCKED returns (idx, vmap, dmap, excl, err)
+//@ thin
+//@ tags [C16,C19]
+//@ requires vc != nil && muHeld(vc.m) == 2
+//@ ensures muHeld(vc.m) == 2
+//@ ensures err != nil ==> idx == nil [C19]
+//@ propagates err from go-faiss.ReadIndexFromBuffer [C19]
+// C16, relational (two runs that differ only in `except`): what is put into the cache does not depend on the
+// deleted-document set of the query that happened to load it.
+//@ rel requires same(vc) && same(fieldID) && same(mem) && same(loadDocVecIDMap) [C16]
+//@ rel loop 1 invariant same(i) && same(pos) && same(numVecs) && same(vecDocIDMap) && same(mapdom(vecDocIDMap)) && same(mapval(vecDocIDMap)) [C16]
+//@ rel assert (*vectorIndexCache).insertLOCKED#1 : same($vecDocIDMap) && same(mapdom($vecDocIDMap)) && same(mapval($vecDocIDMap)) [C16]
+//@ end
+
+//@ func (*vectorIndexCache).addDocVecIDMapToCacheLOCKED returns (dmap)
+//@ thin
+//@ tags [C16]
+//@ requires vc != nil && ce != nil && muHeld(vc.m) == 2
+//@ ensures muHeld(vc.m) == 2
+//@ ensures old(ce.docVecIDMap) != nil ==> dmap == old(ce.docVecIDMap) && ce.docVecIDMap == old(ce.docVecIDMap)
+//@ end
+
+//@ func (*vectorIndexCache).insertLOCKED
+//@ thin
+//@ tags [C16]
+//@ requires vc != nil && muHeld(vc.m) == 2
+//@ ensures muHeld(vc.m) == 2
+//@ end
+
+//@ func (*vectorIndexCache).cleanup returns (empty)
+//@ thin
+//@ tags [C16]
+//@ requires vc != nil && muHeld(vc.m) == 0
+//@ ensures muHeld(vc.m) == 0
+//@ assert (*cacheEntry).close#1 : refCount <= 0 [C16]
+//@ end
+
+//@ func (*vectorIndexCache).Clear
+//@ thin
+//@ tags [C16,C20]
+//@ requires vc != nil && muHeld(vc.m) == 0
+//@ ensures muHeld(vc.m) == 0 && vc.cache == nil && chanClosed(vc.closeCh)
+//@ end
